@@ -13,7 +13,6 @@ use crate::gen::*;
 use crate::json::J;
 use crate::server::*;
 use crate::world::*;
-use coap_lite::Packet;
 use sn_fake_clock::FakeClock;
 use std::collections::{BTreeMap, VecDeque};
 
@@ -225,7 +224,7 @@ fn step_world(spec: &IsoSpec, who: &[usize], sched: &mut dyn FnMut(&[usize], usi
             let c = &mut cs[i];
             c.transcript.push(rb.clone());
             trace.ev(3, i as u64, &rb);
-            if let Ok(p) = Packet::from_bytes(&rb) {
+            if let Some(p) = crate::refparse::accept(&rb) {
                 if c.lane.matches(&p) {
                     if c.lane.take_scripted_loss() {
                         stats.hit("fault.scripted-reply-loss");
